@@ -492,7 +492,7 @@ func runDialFuzzScenario(seed int64) *scenario {
 					sc.violate("Dial with reply %q (proxy=%v): %s", reply, proxyMode, msg)
 				}
 			}
-		case <-time.After(5 * time.Second):
+		case <-time.After(30 * time.Second):
 			sc.violate("Dial with reply %q (proxy=%v) did not return", reply, proxyMode)
 		}
 		ms1.read()
